@@ -102,6 +102,19 @@ def check_row(type_, v, bs, t):
     exp = dict(attrs)
     exp['type'] = type_
     exp['time'] = t
+    # looking at a message does not change it: every read-only accessor is used before the
+    # comparisons, and what bytes()/bin()/dict() returned is overwritten
+    try:
+        looked = (m.is_realtime, m.is_meta, m.is_cc(), m.is_cc(7), len(m), str(m), repr(m), m.dict(), m.hex(), m == m)
+        for view in (m.bytes(), m.bin(), m.dict()):
+            core.scribble(view)
+        st = {k: (tuple(v) if k == 'data' else v) for k, v in vars(m).items()}
+        if st != exp:
+            return 'changed-by-looking', 'after reading its properties the message holds %r expected %r' % (st, exp)
+        if list(m.bytes()) != bs:
+            return 'changed-by-looking/bytes', 'second bytes()=%r expected %r' % (m.bytes(), bs)
+    except Exception as e:
+        return 'accessor-raises', repr(e)
     for how, arg in (('from_bytes/list', bs), ('from_bytes/bytes', bytes(bs)),
                      ('from_bytes/bin', m.bin()), ('from_hex', None),
                      ('from_bytes/positional-time', tuple(bs)), ('from_hex/positional-time', None)):
@@ -134,6 +147,29 @@ def check_row(type_, v, bs, t):
             return how + '/time-assign', 'assigning time on the decoded message raised %r' % (e,)
     if m.time != t or type(m.time) is not type(t):
         return 'aliasing', 'the original message changed when a decoded one was modified'
+    # the encoding follows the message: change it in place, encode again (same object, nothing
+    # else encoded in between), and change it back
+    try:
+        if 'channel' in attrs:
+            nc = (attrs['channel'] + 5) % 16
+            m.channel = nc
+            if list(m.bytes()) != [(bs[0] & 0xf0) | nc] + bs[1:] or m.hex()[1] != '%X' % nc:
+                return 'stale-encoding/channel', 'after channel=%d bytes()=%r' % (nc, m.bytes())
+            m.channel = attrs['channel']
+        elif type_ == 'sysex':
+            m.data += (5,)
+            if list(m.bytes()) != bs[:-1] + [5, 0xf7] or len(m) != len(bs) + 1:
+                return 'stale-encoding/data', 'after data += (5,) bytes()=%r' % (m.bytes(),)
+            m.data = attrs['data']
+        elif type_ == 'song_select':
+            m.song = (attrs['song'] + 1) % 128
+            if list(m.bytes()) != [bs[0], (attrs['song'] + 1) % 128]:
+                return 'stale-encoding/song', 'after song changed bytes()=%r' % (m.bytes(),)
+            m.song = attrs['song']
+        if list(m.bytes()) != bs:
+            return 'stale-encoding/back', 'after changing the message back bytes()=%r expected %r' % (m.bytes(), bs)
+    except Exception as e:
+        return 'in-place-edit-raises', repr(e)
     if type_ == 'sysex':
         # the same message built in two steps: the payload assigned afterwards, from every kind of sequence
         payload = list(attrs['data'])
@@ -291,3 +327,4 @@ def run(ctx):
     # re-entrancy: two threads inside these functions at once, a switch possible before every statement
     from .. import conc
     conc.run_scenarios(ctx, 'C01', 2 if ctx.tier == 'thorough' else 1)
+    conc.first_use(ctx, 'C01', 120 if ctx.tier == 'thorough' else 40)
